@@ -109,7 +109,7 @@ func expectFor(reg *Registry, method string, params *V) Expect {
 		} else {
 			e.Class = "result"
 		}
-	case "ping", "tools/list", "prompts/list", "resources/list", "resources/templates/list":
+	case "ping", "tools/list", "prompts/list", "resources/list":
 		if params == nil || pObj || params.K == 'z' {
 			e.Class = "result"
 		} else {
@@ -121,13 +121,13 @@ func expectFor(reg *Registry, method string, params *V) Expect {
 			e.Class = "bad-params"
 			break
 		}
-		if a, has := params.Get("arguments"); has && a.K != 'z' && a.K != 'o' {
-			e.Class = "bad-params"
-			break
-		}
 		t := reg.tool(name)
 		if t == nil {
 			e.Class = "not-found"
+			break
+		}
+		if a, has := params.Get("arguments"); has && a.K != 'z' && a.K != 'o' && !(a.K == 'R' && a.Open == 'o' && a.Rep > 0) {
+			e.Class = "bad-params"
 			break
 		}
 		e.Class, e.ErrText = t.class, t.errText
@@ -155,7 +155,7 @@ func expectFor(reg *Registry, method string, params *V) Expect {
 			break
 		}
 		e.Class, e.ErrText = r.class, r.errText
-	case "resources/subscribe", "resources/unsubscribe", "completion/complete":
+	case "resources/templates/list", "resources/subscribe", "resources/unsubscribe", "completion/complete":
 		e.Class = "lenient" // not among the methods every transport serves: only well-formedness is judged
 	default:
 		e.Class = "unknown-method"
@@ -272,7 +272,7 @@ func sameKind(a, b V) bool {
 // accept more than the specification asks for).
 func envelopeExpect(reg *Registry, v V) (Expect, bool) {
 	if v.K != 'o' {
-		return Expect{Class: "unserved"}, false
+		return Expect{Class: "unserved", Cause: "not-an-object"}, false
 	}
 	if hasDup(v) {
 		return Expect{Class: "free", Req: true}, false
@@ -294,10 +294,10 @@ func envelopeExpect(reg *Registry, v V) (Expect, bool) {
 		}
 	}
 	if hasVer && ver.K != 's' && ver.K != 'z' {
-		return Expect{Class: "unserved", Req: true}, false
+		return Expect{Class: "unserved", Cause: "member-type-jsonrpc", Req: true}, false
 	}
 	if hasMethod && method.K != 's' && method.K != 'z' {
-		return Expect{Class: "unserved", Req: true}, false
+		return Expect{Class: "unserved", Cause: "member-type-method", Req: true}, false
 	}
 	mname := ""
 	if hasMethod && method.K == 's' {
@@ -307,7 +307,7 @@ func envelopeExpect(reg *Registry, v V) (Expect, bool) {
 	switch {
 	case mname != "" && hasID && id.K != 'z':
 		if hasRes || hasErr {
-			return Expect{Class: "lenient", Req: true}, false
+			return Expect{Class: "lenient", Cause: "request-with-result-member", Req: true}, false
 		}
 		var pp *V
 		if hasParams {
@@ -317,14 +317,14 @@ func envelopeExpect(reg *Registry, v V) (Expect, bool) {
 		if !exact {
 			// a server may insist on the version, or be lenient: only silence is excluded
 			if e.Class != "free" {
-				e = Expect{Class: "lenient", Method: mname, Req: true}
+				e = Expect{Class: "lenient", Cause: "version", Method: mname, Req: true}
 			}
 		}
 		if idWF {
 			e.HasID, e.ID = true, id
 		} else if e.Class != "free" {
 			// an id that is neither a string nor an integer: refusing and serving are both defensible
-			e = Expect{Class: "lenient", Method: mname, Req: true}
+			e = Expect{Class: "lenient", Cause: "id-kind", Method: mname, Req: true}
 		}
 		return e, exact && idWF && !hasRes && !hasErr && onlyEnvelopeMembers(v)
 	case mname != "" && hasID: // id null
@@ -333,8 +333,10 @@ func envelopeExpect(reg *Registry, v V) (Expect, bool) {
 		return Expect{Class: "notification"}, false
 	case hasID && id.K != 'z' && (hasRes || hasErr):
 		return Expect{Class: "response"}, false
+	case hasID && id.K != 'z':
+		return Expect{Class: "unserved", Cause: "id-without-method", Req: true}, false
 	default:
-		return Expect{Class: "unserved", Req: hasID}, false
+		return Expect{Class: "unserved", Cause: "no-id-no-method"}, false
 	}
 }
 
@@ -511,7 +513,8 @@ func GarbageCases(reg *Registry, rng *rand.Rand, thorough bool) []Case {
 		n := 1 + rng.Intn(40)
 		b := make([]byte, n)
 		for j := range b {
-			b[j] = "{}[]\",:0123456789.eE-truefalsn \\u\x00\x7f\xc3\x28abcXYZ"[rng.Intn(52)]
+			const alphabet = "{}[]\",:0123456789.eE-truefalsn \\u\x00\x7f\xc3\x28abcXYZ"
+			b[j] = alphabet[rng.Intn(len(alphabet))]
 		}
 		s := strings.NewReplacer("\n", " ", "\r", " ").Replace(string(b))
 		if _, ok := ParseV([]byte(s), false); ok {
@@ -533,12 +536,12 @@ func GarbageCases(reg *Registry, rng *rand.Rand, thorough bool) []Case {
 		Obj(F("jsonrpc", Str("2.0")), F("id", Int(3)), F("result", Num("1e999"))),
 		Obj(F("jsonrpc", Str("2.0")), F("id", Int(3)), F("method", Str("ping")), F("other", Num("1e999"))),
 	} {
-		c := Case{Label: fmt.Sprintf("garbage:huge-number-%d", i), Body: []byte(v.Raw()), Exp: Expect{Class: "lenient", Req: i != 4}, Tags: []string{"class:lenient", "garbage", "huge-number"}}
+		c := Case{Label: fmt.Sprintf("garbage:huge-number-%d", i), Body: []byte(v.Raw()), Exp: Expect{Class: "lenient", Cause: "huge-number", Req: i != 4}, Tags: []string{"class:lenient", "garbage", "huge-number"}}
 		if i == 4 || i == 5 {
 			c.Exp.Class = "free"
 		}
 		if i == 6 {
-			c.Exp = Expect{Class: "lenient", Method: "ping", Req: true, HasID: true, ID: Int(3)}
+			c.Exp = Expect{Class: "lenient", Cause: "huge-number", Method: "ping", Req: true, HasID: true, ID: Int(3)}
 		}
 		cs = append(cs, c)
 	}
